@@ -225,7 +225,7 @@ def generate(repo=None, force_fallback=()):
     for name, sig, fn in ANCHORS:
         if name in force_fallback:
             status[name] = {'status': 'fallback', 'why': 'generated definition did not elaborate'}
-            lines.append(f'def {name} := Gen.Default.{name}')
+            lines.append(f'def {name} := @Gen.Default.{name}')
             continue
         try:
             term = fn(T)
@@ -236,7 +236,7 @@ def generate(repo=None, force_fallback=()):
                 lines.append(f'def {name} {sig} := {term}')
         except (NotFound, Untranslatable, KeyError, IndexError, AttributeError, TypeError, ValueError) as e:
             status[name] = {'status': 'fallback', 'why': f'{type(e).__name__}: {e}'[:300]}
-            lines.append(f'def {name} := Gen.Default.{name}')
+            lines.append(f'def {name} := @Gen.Default.{name}')
     lines += ['', 'end Gen', '']
     return '\n'.join(lines), status
 
